@@ -750,17 +750,19 @@ impl<'a> Client<'a> {
         let it = &mut s.it;
         let r = call("iterator-step", || -> Result<(), RainDBError> {
             match op {
-                Op::IterSeek { key, .. } => it.seek(key),
-                Op::IterFirst { .. } => it.seek_to_first(),
-                Op::IterLast { .. } => it.seek_to_last(),
+                Op::IterSeek { key, .. } => it.seek(key)?,
+                Op::IterFirst { .. } => it.seek_to_first()?,
+                Op::IterLast { .. } => it.seek_to_last()?,
                 Op::IterNext { .. } => {
                     it.next();
-                    Ok(())
                 }
                 Op::IterPrev { .. } => {
                     it.prev();
-                    Ok(())
                 }
+                _ => {}
+            }
+            match it.status() {
+                Some(e) if !it.is_valid() => Err(e),
                 _ => Ok(()),
             }
         });
@@ -822,6 +824,9 @@ impl<'a> Client<'a> {
                 fwd.push((k.clone(), v.clone()));
                 it.next();
             }
+            if let Some(e) = it.status() {
+                return Err(e);
+            }
             let mut bwd = vec![];
             it.seek_to_last()?;
             while it.is_valid() {
@@ -830,6 +835,9 @@ impl<'a> Client<'a> {
                 it.prev();
             }
             bwd.reverse();
+            if let Some(e) = it.status() {
+                return Err(e);
+            }
             Ok((fwd, bwd))
         });
         with_out(self.out, |o| o.stats.snap_reads += 2);
